@@ -59,7 +59,7 @@ def functions():
 def tasks(tier):
     return [("loop", n, k) for n in (1, 2, 3) for k in (0, 1, 2, 3)] + [("request", 0), ("request", 1), ("connectors",), ("frame-rule",),
                                                                        ("constraints", "ice40"), ("constraints", "ecp5"),
-                                                                       ("constraints", "gowin"), ("constraints-names",)]
+                                                                       ("constraints", "gowin"), ("constraints-names",), ("clocks",)]
 
 
 def canaries(tier):
@@ -520,6 +520,43 @@ def unit_constraints(kind, names_case=False):
             "bounded": [{"name": f"constraint file ({kind})", "bound": "one design with subsignals, connector pins, a name clash" if names_case else "one design", "cases": cases, "failures": fails}]}
 
 
+def unit_clocks():
+    """every Clock declared on a requested resource -- on the resource itself, on a subsignal, on a nested subsignal,
+    on single-ended pins and on differential pairs -- yields exactly one port clock constraint, on that component's own
+    port, with its period; components without a Clock yield none; an unrequested resource yields none"""
+    from amaranth.build.dsl import Resource, Subsignal, Pins, DiffPairs, Clock
+    from amaranth.build.res import ResourceManager
+    from amaranth.hdl import Period
+    resources = [
+        Resource("osc", 0, Pins("1", dir="i"), Clock(Period(MHz=10))),
+        Resource("eth", 0,
+                 Subsignal("rx_clk", Pins("2", dir="i"), Clock(Period(MHz=25))),
+                 Subsignal("rx", Pins("3 4", dir="i")),
+                 Subsignal("tx", Subsignal("clk", DiffPairs("5", "6", dir="i"), Clock(Period(MHz=125))), Subsignal("d", Pins("7", dir="o")))),
+        Resource("ser", 0, DiffPairs("8", "9", dir="i"), Clock(Period(MHz=50))),
+        Resource("unused", 0, Pins("10", dir="i"), Clock(Period(MHz=1))),
+    ]
+    cases = 0
+    bad = None
+    for order in itertools.permutations(["osc", "eth", "ser"]):
+        cases += 1
+        rm = ResourceManager(resources, [])
+        for nm in order:
+            rm.request(nm, 0, dir="-")
+        got = sorted((port.name, round(float(freq))) for port, freq in rm.iter_port_clock_constraints())
+        want = sorted([("osc_0__io", 10_000_000), ("eth_0__rx_clk__io", 25_000_000),
+                       ("eth_0__tx__clk__p", 125_000_000), ("ser_0__p", 50_000_000)])
+        if got != want and bad is None:
+            bad = {"requests": order, "port clock constraints (port, Hz)": got, "declared": want,
+                   "how": "ResourceManager(resources, []).request(name, 0, dir='-'); iter_port_clock_constraints()"}
+    ok = bad is None
+    return {"task": "clocks", "paths": cases, "solver_s": 0.0, "obligations": [
+        {"name": "clocks::every-declared-clock-once-on-its-own-port", "kind": "bounded", "status": "proved" if ok else "refuted", "backend": "cpython",
+         "time_s": 0.0, **({} if ok else {"failing_input": bad})}],
+        "bounded": [{"name": "clock constraints of requested resources", "bound": "one table with clocks at three nesting levels, all request orders",
+                     "cases": cases, "failures": 0 if ok else 1}]}
+
+
 def unit_frame_rule():
     """Failure frame of request(): the call of resolve() sits in a `try` whose handler puts back copies of
     `_phys_reqd`, `_clocks`, `_io_clocks`, `_pins` taken before the call, and re-raises; `_requested` is written
@@ -555,6 +592,8 @@ def run_task(task):
     k = task[0]
     if k == "frame-rule":
         return unit_frame_rule()
+    if k == "clocks":
+        return unit_clocks()
     if k == "loop":
         return unit_loop(task[1], task[2])
     if k == "request":
